@@ -4,7 +4,10 @@ use std::cell::UnsafeCell;
 use std::fmt;
 use std::ops::{Deref, DerefMut};
 use std::panic::{RefUnwindSafe, UnwindSafe};
+#[cfg(not(may_verif))]
 use std::sync::atomic::{fence, AtomicUsize, Ordering};
+#[cfg(may_verif)]
+use crate::verif::atomic::{fence, AtomicUsize, Ordering};
 use std::sync::Arc;
 use std::sync::{LockResult, TryLockError, TryLockResult};
 
@@ -13,7 +16,10 @@ use super::poison;
 use crate::cancel::trigger_cancel_panic;
 use crate::park::ParkError;
 
+#[cfg(not(may_verif))]
 use may_queue::mpsc::Queue;
+#[cfg(may_verif)]
+use crate::verif::Queue;
 
 pub struct Mutex<T: ?Sized> {
     // the waiting blocker list
